@@ -76,7 +76,8 @@ pub fn generate(ctx: &mut Ctx) {
     for i in 0..n {
         let mut rng = ctx.rng("hist", i);
         let mut o = gen::Opts::new(rng.chance(1, 2));
-        o.max_segs = 8;
+        o.max_segs = if rng.chance(1, 8) { 30 } else { 8 };
+        o.long = !ctx.tiny() && rng.chance(1, 8);
         let init = gen::reference(&mut rng, o);
         let mut ops: Vec<String> = Vec::new();
         let maxops = if ctx.tiny() { 10 } else { 24 };
